@@ -9,6 +9,12 @@ ASSUME = ("Trusted base: go/ssa lowering (x/tools v0.29.0, naive form) of /repo'
 
 CLAIMS = {
  # id: (level, text, note(unverified), technique, config)
+ "C06": ("proof",
+   "Every function of ds/set (New, SAdd, SRem, SHasKey, SCard, SIsMember, SAreMembers, SMembers, SDiff, SInter, SUnion, SPop, SMove, checkKey1AndKey2) is proved against the mathematical-set model for all keys, items and set contents: membership after SAdd/SRem is exactly old plus/minus the given items, other keys and other sets are untouched (frames), the list-returning queries return exactly the members (sound, complete, without duplicates; loop invariants over the map iteration), SPop returns a former member that is then removed, and no call panics.",
+   "Not yet under contract: the transactional layer tx_set.go (in particular the SMove* methods that bypass the log) and the two appliers; SRem refuses an empty item although SAdd accepts it (a weakness of the pinned tree, recorded when the Tx layer is added).",
+   "contract-based deductive verification (weakest-precondition VCs over go/ssa, z3/cvc5)",
+   {}),
+
  "C08": ("proof",
    "Mechanism-level proof of the replay that makes a reopen reproduce the state: getMaxFileIDAndFileIDs returns the segment ids sorted ascending with the maximum last; parseDataFiles appends one record per entry read, in file/offset order, whose hint carries the file id, the offset that was read, the entry's own metadata and key (and the entry itself in key-value mode) and records a transaction id as committed only for entries with status Committed; buildHintIdx applies a record if and only if its transaction id is in that set (branch condition proved equivalent, and every applier call site asserted); setActiveFile stamps the active file with MaxFileID.",
    "Not decided: equivalence of the commit-time and open-time appliers for set/list/sorted-set records (appliers are assumed contracts here), so 'operations that were no-ops at commit time' and SMove are not covered; B+ tree insertion is an assumed contract (bounded stand-in pending).",
